@@ -93,6 +93,11 @@ func genFile(r *Rand, name, prev string) *sfile {
 
 func (stageComp) Corpus() [][]string {
 	return [][]string{
+		// a version is the name and the hash: a whole retransmission of a delivered version that carries another rename
+		// target is still a duplicate (seed C05f: version identity had become name + hash + target)
+		{"base ?", "recover 0", "prepare a 2 0", "recv a - - 2 b1.2 0 2 1.2 0", "settle 0", "observe", "status a 0 0",
+			"prepare a 2 0", "recv a r/a.x - 2 b1.2 0 2 1.2 0", "settle 0", "observe", "status a 0 0",
+			"crash", "recover 0", "prepare a 2 0", "recv a r2/a - 2 b1.2 0 2 1.2 0", "settle 0", "observe", "status a 0 0"},
 		// a version that fails validation stays "failed" across a restart: the failed copy and its companion stay on
 		// the stage and are validated again; the receiver must not fall back to the log record of an older version of
 		// the name (seed C01c: the failed copy was deleted, the restarted receiver answered "passed")
@@ -578,6 +583,15 @@ func genStageScenario(r *Rand) []string {
 			// retransmission of the whole file
 			send(f, partOrder(f))
 			pipeline(f)
+		}
+		if r.Chance(0.1) {
+			// ... by a sender whose rename mapping has changed: same name, same bytes, another target
+			g := *f
+			g.renamed = []string{"", "r2/" + strings.ReplaceAll(f.name, "/", "_")}[r.Intn(2)]
+			if g.renamed != f.renamed {
+				send(&g, partOrder(&g))
+				pipeline(&g)
+			}
 		}
 	}
 	ops = append(ops, "settle 0", "observe", "mem")
